@@ -111,6 +111,19 @@ def rule_args(ctx, prop):
             org = prov_calls(provenance(f, t["args"][1]))
             e_ok = any(re.search(r"(^|::)format_code$", c) for c in exp)
             o_ok = not any(re.search(r"(^|::)format_code$", c) for c in org)
+            # `original` is the text as it was read (file contents / stdin), not a trimmed or otherwise rewritten copy:
+            # what --check compares must be what a plain run would compare before writing
+            import r_cfg
+            deep = r_cfg._deep_calls(f, t["args"][1])
+            rewritten = sorted(c for c in deep if re.search(r"<impl str>::(strip_prefix|strip_suffix|trim[a-z_]*|replace[a-z_]*|split[a-z_]*|get|"
+                                                           r"to_lowercase|to_uppercase)$|::strip_prefix$|::trim_start_matches$|"
+                                                           r"String::(replace_range|truncate|drain|remove)$|ops::Index", c))
+            if rewritten and o_ok:
+                rep.inst(f"{f.key} create_diff(original = the text as read)", {"through": [c.split("::")[-1] for c in rewritten]}, cfg, ok=False)
+                rep.violation(f"{f.key} create_diff-original-rewritten via={','.join(c.split('::')[-1] for c in rewritten)[:40]}",
+                              f"{f.path} hands create_diff an `original` that went through {[c.split('::')[-1] for c in rewritten]}: "
+                              f"--check compares a rewritten copy of the file with the formatted text and reports `no difference` "
+                              f"(exit 0) for a file that a plain run would rewrite", f.loc(t["sp"]), cfg)
             rep.inst(f"{f.key} create_diff(original, expected=format_code(..))", {"at": f.loc(t["sp"])}, cfg, ok=e_ok and o_ok)
             if not (e_ok and o_ok):
                 rep.violation(f"{f.key} create_diff-arguments-swapped",
